@@ -95,8 +95,14 @@ MUTANTS = [
     ("stem-hash-reads-past-the-stem", "C04", "stem.fold", "mypy/util.py", "    hv: i64 = 123\n    i = end", "    hv: i64 = 123\n    i = len(s) - 1", "violation"),
     ("meta-ex-name-changes-the-stem", "C04", "get_meta_ex_name", "mypy/build.py", '    parts[1] = "meta_ex"\n    return ".".join(parts)', '    parts[0] = parts[0] + "_ex"\n    return ".".join(parts)', "violation"),
     ("stem-scan-index-renamed-harmless", "C04", "stem.final|stem.fold", "mypy/util.py", "    hv = (hv * 0x85EBCA6B) & 0xFFFFFFFF", "    hv = (0x85EBCA6B * hv) & 0xFFFFFFFF", "pass"),
-    ("unused-ignore-bare-used-still-reported", "C13", "generate_unused", "mypy/errors.py", "            if not ignored_codes and used_ignored_codes:\n                continue", "            if not ignored_codes and len(used_ignored_codes) > 1:\n                continue", "undecided"),
-    ("unused-ignore-skipped-lines-ignored", "C13", "generate_unused", "mypy/errors.py", "        for line, ignored_codes in ignored_lines.items():\n            if line in self.skipped_lines[file]:\n                continue\n            if codes.UNUSED_IGNORE.code in ignored_codes:", "        for line, ignored_codes in ignored_lines.items():\n            if codes.UNUSED_IGNORE.code in ignored_codes:", "undecided"),
+    ("unused-ignore-bare-used-still-reported", "C13", "generate_unused", "mypy/errors.py", "            if not ignored_codes and used_ignored_codes:\n                continue", "            if not ignored_codes and len(used_ignored_codes) > 1:\n                continue", "undecided|violation"),
+    ("unused-ignore-skipped-lines-ignored", "C13", "generate_unused", "mypy/errors.py", "        for line, ignored_codes in ignored_lines.items():\n            if line in self.skipped_lines[file]:\n                continue\n            if codes.UNUSED_IGNORE.code in ignored_codes:", "        for line, ignored_codes in ignored_lines.items():\n            if codes.UNUSED_IGNORE.code in ignored_codes:", "undecided|violation"),
+    ("symtab-count-ignores-no-serialize", "C11", "SymbolTable.write", "mypy/nodes.py", '            if key == "__builtins__" or value.no_serialize:\n                continue\n            size += 1', '            if key == "__builtins__":\n                continue\n            size += 1', "violation"),
+    ("symtab-entry-written-under-wrong-name", "C11", "SymbolTable.write", "mypy/nodes.py", "            write_str_bare(data, key)\n            value.write(data, fullname, key)", "            write_str_bare(data, key)\n            value.write(data, fullname, fullname)", "violation"),
+    ("stn-cross-ref-compares-bare-name", "C11", "nodes.SymbolTableNode$", "mypy/nodes.py", '#2:                    and fullname != prefix + "." + name', '                    and fullname != name', "violation"),
+    ("stn-read-flags-swapped", "C11", "nodes.SymbolTableNode$", "mypy/nodes.py", "        sym.module_hidden = read_bool(data)\n        sym.module_public = read_bool(data)", "        sym.module_public = read_bool(data)\n        sym.module_hidden = read_bool(data)", "violation"),
+    ("stn-typeinfo-also-lazy", "C11", "nodes.SymbolTableNode", "mypy/nodes.py", "            if tag == TYPE_INFO:\n                sym._node = TypeInfo.read(data)\n            else:", "            if False:\n                sym._node = TypeInfo.read(data)\n            else:", "violation"),
+    ("stn-lazy-node-keeps-unfixed", "C11", "lazy_node", "mypy/nodes.py", "                node.accept(node_fixer)\n                self.unfixed = False", "                node.accept(node_fixer)", "violation"),
     ("enabled-parent-check-dropped", "C13", "is_error_code_enabled", "mypy/errors.py", "elif error_code.sub_code_of is not None and error_code.sub_code_of in current_mod_disabled:\n            return False", "elif error_code.sub_code_of is not None and error_code.sub_code_of in current_mod_enabled:\n            return False", "violation"),
 ]
 
@@ -109,14 +115,20 @@ def run(m, keep=False):
             shutil.copytree(os.path.join(REPO, d), os.path.join(scratch, d), ignore=shutil.ignore_patterns("__pycache__", "*.so", "test-data", "typeshed" if False else "__none__"))
         p = os.path.join(scratch, file)
         src = open(p).read()
-        if old not in src:
+        nth = 1
+        if old.startswith("#2:"):
+            nth, old = 2, old[3:]
+        if src.count(old) < nth:
             return name, "STALE (pattern not found)", False
-        open(p, "w").write(src.replace(old, new, 1))
+        pos = -1
+        for _ in range(nth):
+            pos = src.index(old, pos + 1)
+        open(p, "w").write(src[:pos] + new + src[pos + len(old):])
         out = os.path.join(scratch, "_out")
         env = dict(os.environ, VERIF_REPO=scratch, VERIF_OUT=out)
         r = subprocess.run([os.path.join(VERIF, "check"), prop, "--only", only], capture_output=True, text=True, env=env, timeout=3600)
         got = {0: "pass", 1: "violation", 2: "undecided", 3: "broken"}.get(r.returncode, f"exit{r.returncode}")
-        ok = got == expect
+        ok = got in expect.split("|")
         detail = ""
         import glob
         reps = []
